@@ -26,14 +26,19 @@ META = {
     "note": "Trusted: Lean kernel + propext/Classical.choice/Quot.sound; the hand-written model Lines.lean (file = line lengths + final-newline flag; "
             "libstdc++ seekg/getline/tellg semantics incl. tellg() = -1 after eof are modelled, compared on the generated inputs only); the granule is "
             "a model parameter, the code is exercised at its fixed 8 MiB only; parse_csv_line and boost::json::parse are parameters (the real ones are "
-            "applied on both sides); directory traversal / unreadable paths of check_paths are exercised (dir and duplicate paths), not modelled.",
+            "applied on both sides); directory traversal / unreadable paths of check_paths are exercised (dir and duplicate paths), not modelled; "
+            "the model is one for_all call: delivery of the assignments before the second barrier returns and the emptiness of the static "
+            "assignment list between calls rest on C01/C02 and are exercised (buffer 0/1 KB/default, routings, delivery policies, repeated calls).",
 }
 
 G = 8 * 1024 * 1024
-RULE = ("generated: per file set choose file sizes (shapes: single file, several files with empty ones, back file exactly 8 MiB, back file exactly "
-        "total/2+1, a line longer than 8 MiB), compute the range cuts for every communicator size 1..8, steer newlines to cut-2..cut+1, clusters of "
-        "empty lines, or no newline within +-100-300 kB of each cut; run the real parser for every communicator size; a case = (file set, kind, "
-        "ranks); non-trivial = at least two ranks received a byte range")
+RULE = ("generated: per file set choose file sizes (shapes: single file; several files with empty ones; back file exactly 8 MiB; back file "
+        "exactly total/2+1; a line longer than 8 MiB at a random place; a line covering exactly 1, 2 or 3 whole interior pieces with its newline "
+        "at / one before / one after the piece's last byte; a directory of 64 small files; 40 files of ~20 MB), compute the range cuts for every "
+        "communicator size 1..8, steer newlines to cut-2..cut+1, clusters of empty lines, or no newline within +-100-300 kB of each cut; run the "
+        "real parser for every communicator size with YGM_COMM_BUFFER_SIZE_KB in {0, 1, default}, routing NONE/NR/NLNR, five simmpi delivery "
+        "policies, one or two back-to-back for_all calls on the same parser object; a case = (file set, kind, ranks); non-trivial = at least "
+        "two ranks received a byte range, or >= 32 files")
 
 
 # ------------------------------------------------------------------ text rule (mirror of harness/lines.cpp, `lines` kind only)
@@ -89,20 +94,24 @@ def pick_len(rng, minlen):
     return max(L, minlen)
 
 
-def gen_file(size, nl, cuts, rng, minlen, bigline=None, tail_cluster=False):
-    """line lengths of a file of exactly `size` bytes.  cuts: byte offsets of range boundaries inside the file."""
+def gen_file(size, nl, cuts, rng, minlen, bigline=None, tail_cluster=False, hard=(), short=False):
+    """line lengths of a file of exactly `size` bytes.  cuts: byte offsets of range boundaries inside the file.
+    bigline: (lo, hi) no newline inside; hard: newline positions that must be kept exactly."""
     if size == 0:
         return []
-    anchors = set()          # required newline positions
+    anchors = set(hard)      # required newline positions
     zones = []               # (lo, hi): no newline allowed inside
     if bigline:
         zones.append(bigline)
     for c in sorted(cuts):
         sc = rng.choice(["nl-2", "nl-1", "nl0", "nl+1", "cluster", "long", "nl-1", "nl0"])
-        if any(lo <= c <= hi for lo, hi in zones):
+        if any(lo <= c <= hi for lo, hi in zones) or any(abs(c - h) <= 4 for h in hard):
             continue
         if sc == "long":
-            zones.append((c - rng.randint(100000, 300000), c + rng.randint(100000, 300000)))
+            z = (c - rng.randint(100000, 300000), c + rng.randint(100000, 300000))
+            if any(z[0] <= h <= z[1] for h in hard):
+                continue
+            zones.append(z)
         elif sc == "cluster" and minlen == 0:
             for d in range(-3, 3):
                 anchors.add(c + d)
@@ -122,6 +131,8 @@ def gen_file(size, nl, cuts, rng, minlen, bigline=None, tail_cluster=False):
         while True:
             remaining = p - s
             L = pick_len(rng, minlen)
+            if short:
+                L = max(minlen, L % 300)
             q = s + L                      # candidate newline position
             for lo, hi in zones:
                 if lo <= q <= hi:
@@ -143,20 +154,25 @@ def file_bytes(lens, nl):
     return sum(lens) + len(lens) - (0 if nl else 1)
 
 
-def gen_set(tier, seed, idx, kind):
-    rng = random.Random(f"c18-{tier}-{seed}-{idx}-{kind}")
+def gen_set(tier, seed, idx, kind, shape=None):
+    """shapes: A single file; B several files with empty ones; C back file exactly one granule; D back file exactly
+    total/2+1; E a line longer than the granule at a random place; F1/F2/F3 a line that covers 1/2/3 whole interior
+    pieces (its newline at the piece's last byte, one before or one after); S a directory of 64 small files (< 8 MiB in
+    total: everything is assigned to rank 0, the assignment messages exceed 1 KiB); M 40 files of 18-24 MB in total"""
+    req = shape
+    rng = random.Random(f"c18-{tier}-{seed}-{idx}-{kind}-{shape}")
     minlen = 48 if kind == "ndjson" else 0
     if kind == "lines":
-        # quick: three different shapes per seed, all five over consecutive seeds; thorough: random
-        shape = "BCEDA"[(idx + 3 * seed) % 5] if tier == "quick" else rng.choice("ABCDE")
+        if shape is None:
+            shape = "BCEDA"[(idx + 3 * seed) % 5] if tier == "quick" else rng.choice("ABCDE")
         total = rng.randint(17, 24) * 1024 * 1024 if tier == "quick" else rng.randint(10, 120) * 1024 * 1024
-        if tier == "quick" and idx >= 5:          # one larger set so that every one of 8 ranks receives a range
+        if shape == "big":                        # a larger set so that every one of 8 ranks receives a range
             total, shape = rng.randint(58, 70) * 1024 * 1024, rng.choice("AB")
         total += rng.randint(-3000, 3000)
     else:
-        shape = rng.choice("AB")
+        shape = shape or rng.choice("AB")
         total = rng.randint(9, 13) * 1024 * 1024 + rng.randint(-3000, 3000)
-    bigline = {}
+    bigline, hard, short = {}, {}, False
     if shape == "A":
         sizes = [total]
     elif shape == "B":
@@ -172,13 +188,41 @@ def gen_set(tier, seed, idx, kind):
     elif shape == "D":                                            # back file exactly total/2 + 1 (n = 2 budget)
         a = total // 2
         sizes = [a, 0, a + 2] if rng.random() < 0.5 else [a, a + 2]
-    else:                                                         # E: a line longer than the granule
+    elif shape == "E":                                            # a line longer than the granule
         big = rng.randint(9, 17) * 1024 * 1024 if tier == "thorough" else rng.randint(9, 11) * 1024 * 1024
         total = max(total, big + 6 * 1024 * 1024)
         a = rng.randint(1, 3) * 1024 * 1024
         sizes = [a, total - a]
         lo = rng.randint(200000, total - a - big - 200000)
         bigline[1] = (lo, lo + big)
+    elif shape in ("F1", "F2", "F3"):
+        # the back file is cut at j*G for every communicator size with total/size+1 <= G (total < 64 MiB: 8 ranks, mostly
+        # also 6 and 7); one line covers the pieces [jG,(j+1)G] ... [(j+k-1)G,(j+k)G]; smaller communicators have
+        # larger pieces, the 3-piece line still covers whole ones for 3, 4 and 5 ranks
+        k = int(shape[1])
+        j = rng.choice([1, 2]) if k < 3 else 1
+        small = rng.choice([0, rng.randint(1000, 300000)])
+        bigf = (j + k + 1) * G + rng.randint(1, 5) * 1024 * 1024 + rng.randint(-3000, 3000)
+        sizes = [small, bigf] if small else [bigf]
+        d = [0, -1, 1][(seed + k + idx) % 3]                       # newline at the last byte of the piece / before / after
+        P = (j + k) * G + d
+        sa = rng.choice(["at-cut", "cut-1", "free"])
+        if sa == "at-cut":
+            start_nl, zlo = j * G - 1, j * G                       # the line starts exactly at the cut
+        elif sa == "cut-1":
+            start_nl, zlo = j * G - 2, j * G - 1
+        else:
+            start_nl, zlo = None, j * G - rng.randint(0, 5000)
+        fi = len(sizes) - 1
+        bigline[fi] = (zlo, P - 1)
+        hard[fi] = [P] + ([start_nl] if start_nl is not None else [])
+    elif shape == "S":
+        short = True
+        sizes = [rng.choice([0, rng.randint(1, 40), rng.randint(500, 40000), rng.randint(500, 40000)]) for _ in range(64)]
+    else:                                                         # M
+        total = rng.randint(18, 24) * 1024 * 1024
+        ws = [rng.choice([0, 1, 1, 1]) * (rng.random() + 0.1) for _ in range(40)]
+        sizes = [int(total * w / sum(ws)) for w in ws]
     cuts = collections.defaultdict(set)
     for n in range(1, 9):
         for rs in py_carve(sizes, n):
@@ -188,11 +232,12 @@ def gen_set(tier, seed, idx, kind):
     files = []
     for f, sz in enumerate(sizes):
         nl = rng.random() < 0.6
-        lens = gen_file(sz, nl, cuts[f], rng, minlen, bigline.get(f), tail_cluster=(rng.random() < 0.6))
+        lens = gen_file(sz, nl, cuts[f], rng, minlen, bigline.get(f), tail_cluster=(rng.random() < 0.6),
+                        hard=hard.get(f, ()), short=short)
         if sz > 0 and file_bytes(lens, nl) != sz:
             raise RuntimeError(f"generator: file {f} has {file_bytes(lens, nl)} bytes, wanted {sz}")
         files.append((nl, lens))
-    return {"kind": kind, "shape": shape, "idx": idx, "files": files, "sizes": sizes}
+    return {"kind": kind, "shape": shape, "idx": idx, "files": files, "sizes": sizes, "req": req}
 
 
 def write_spec(path, fset):
@@ -245,24 +290,28 @@ def factor_layout(r):
     return (2, r // 2) if r % 2 == 0 and r > 2 else (1, r)
 
 
-def run_real(binary, fset, n, pathmode, sim_seed):
+def run_real(binary, fset, n, pathmode, opts, sim_seed):
+    """opts: buf (YGM_COMM_BUFFER_SIZE_KB or None = library default), routing, policy (simmpi), calls"""
     d = tempfile.mkdtemp(prefix="c18spec-")
     try:
         spec = os.path.join(d, "spec.txt")
         write_spec(spec, fset)
         nodes, ppn = factor_layout(n)
-        sr = C.run_sim(binary, [fset["kind"], spec, pathmode], nodes=nodes, ppn=ppn, want_log=False,
-                       sim_seed=sim_seed, timeout=900)
+        env = {"YGM_COMM_ROUTING": opts["routing"]}
+        if opts["buf"] is not None:
+            env["YGM_COMM_BUFFER_SIZE_KB"] = opts["buf"]
+        sr = C.run_sim(binary, [fset["kind"], spec, pathmode, opts["calls"]], nodes=nodes, ppn=ppn, want_log=False,
+                       env=env, policy=opts["policy"], sim_seed=sim_seed, timeout=900)
     finally:
         shutil.rmtree(d, ignore_errors=True)
     return sr
 
 
 def split_out(sr, n):
-    """per rank Counter of items; oracle {(f,i): item}; reported sizes"""
-    per_rank, oracle, fsizes = [], {}, {}
+    """per call, per rank Counter of items; oracle {(f,i): item}; reported sizes"""
+    calls, oracle, fsizes = {}, {}, {}
     for r in range(n):
-        c = collections.Counter()
+        cur = None
         for l in sr.outs.get(r, []):
             if l.startswith("Q "):
                 w = l.split(" ", 3)
@@ -270,14 +319,17 @@ def split_out(sr, n):
             elif l.startswith("F "):
                 w = l.split()
                 fsizes[int(w[1])] = int(w[2])
-            elif l:
-                c[l] += 1
-        per_rank.append(c)
-    return per_rank, oracle, fsizes
+            elif l.startswith("C "):
+                cur = int(l[2:])
+                calls.setdefault(cur, [collections.Counter() for _ in range(n)])
+            elif l and cur is not None:
+                calls[cur][r][l] += 1
+    return calls, oracle, fsizes
 
 
 def classify(res, fset, cv):
     """measured distribution of what the cuts of this run hit"""
+    import bisect
     starts = []
     for nl, lens in fset["files"]:
         s, st = 0, []
@@ -285,7 +337,6 @@ def classify(res, fset, cv):
             st.append(s)
             s += L + 1
         starts.append(st)
-    import bisect
     ranks_with_data = sum(1 for rs in cv if rs)
     bpr = max(sum(fset["sizes"]) // len(cv) + 1, G)
     for ri, rs in enumerate(cv):
@@ -294,13 +345,17 @@ def classify(res, fset, cv):
             if sz == 0:
                 res.count("range-of-empty-file")
                 continue
+            st = starts[f]
+            if b > 0 and e < sz:
+                k = bisect.bisect_right(st, b)     # first line with start > b
+                if k >= len(st) or st[k] > e:
+                    res.count("interior piece lying wholly inside one line (delivers nothing)")
             if e == sz:
                 if b == 0:
                     res.count("file read whole by one rank")
                 if rs[-1] == (f, b, e) and sum(y - x for (_, x, y) in rs) == bpr and any(cv[ri + 1:]):
                     res.count("file ends exactly on a budget boundary")
                 continue
-            st = starts[f]
             k = bisect.bisect_left(st, e)          # first line with start >= e
             nxt = st[k] if k < len(st) else None
             prev = st[k - 1] if k > 0 else None
@@ -328,17 +383,17 @@ def sig_of(kind, missing, extra):
     return f"{kind}-not-exactly-once missing={min(len(missing), 9)} duplicated-or-foreign={min(len(extra), 9)}"
 
 
-def check_run(res, fset, n, pathmode, sr, msizes, cv, dl, alll, tier, seed):
+def check_run(res, fset, n, pathmode, opts, sr, msizes, cv, dl, alll, tier, seed):
     kind = fset["kind"]
-    case = {"tier": tier, "seed": seed, "set": fset["idx"], "kind": kind, "shape": fset["shape"], "ranks": n,
-            "pathmode": pathmode, "sizes": fset["sizes"], "final_newline": [nl for nl, _ in fset["files"]],
+    case = {"tier": tier, "seed": seed, "set": fset["idx"], "kind": kind, "shape": fset["shape"], "shape_req": fset["req"], "ranks": n,
+            "pathmode": pathmode, "opts": opts, "sizes": fset["sizes"], "final_newline": [nl for nl, _ in fset["files"]],
             "model_ranges": cv}
     res.evaluations += 1
     if sr.verdict != "ok":
         res.oracle_failures.append({"what": f"{PARSER[kind]} run failed: {sr.verdict}", "signature": f"{kind}-run-{sr.verdict.split(':')[0]}",
-                                    "case": dict(case, stderr=sr.stderr[-400:])})
+                                    "case": dict(case, stderr=sr.stderr[-400:], blocked=sr.blocked)})
         return
-    per_rank, oracle, fsizes = split_out(sr, n)
+    calls, oracle, fsizes = split_out(sr, n)
     # -- the generated files are what the model was given
     if [fsizes.get(f) for f in range(len(msizes))] != msizes:
         res.corr_failures.append({"relation": "File.size == fs::file_size of the generated file", "what": "sizes differ",
@@ -353,6 +408,9 @@ def check_run(res, fset, n, pathmode, sr, msizes, cv, dl, alll, tier, seed):
         if bad:
             res.corr_failures.append({"relation": "harness wrote the specified text", "what": f"{len(bad)} lines differ", "case": dict(case, first=bad[0])})
             return
+    if sorted(calls.keys()) != list(range(opts["calls"])):
+        res.corr_failures.append({"relation": "harness performed the requested for_all calls", "what": f"calls seen {sorted(calls.keys())}", "case": case})
+        return
     # -- expected per rank from the model
     if kind == "csv":
         keep = C.model("lines", ["csvkeep " + " ".join(oracle[x].split()[1] for x in d) for d in dl])
@@ -361,53 +419,86 @@ def check_run(res, fset, n, pathmode, sr, msizes, cv, dl, alll, tier, seed):
     else:
         exp = [collections.Counter(oracle[x] for x in d) for d in dl]
         seq = collections.Counter(oracle.values())
-    # -- direct oracle: union over all ranks == sequential read
-    union = collections.Counter()
-    for c in per_rank:
-        union.update(c)
-    if union != seq:
-        missing = list((seq - union).items())
-        extra = list((union - seq).items())
-        res.oracle_failures.append({"what": f"{PARSER[kind]}::for_all over {n} ranks: {sum(v for _, v in missing)} record(s) never delivered, "
-                                            f"{sum(v for _, v in extra)} delivered too often / not in the files",
-                                    "signature": sig_of(kind, missing, extra),
-                                    "case": dict(case, missing=missing[:6], extra=extra[:6])})
-    # -- correspondence, rank by rank
-    for r in range(n):
-        if per_rank[r] != exp[r]:
-            res.corr_failures.append({"relation": "Lines.delivered (carve + readRange) == items delivered per rank",
-                                      "what": f"rank {r} of {n} differs",
-                                      "case": dict(case, rank=r, only_real=list((per_rank[r] - exp[r]).items())[:5],
-                                                   only_model=list((exp[r] - per_rank[r]).items())[:5])})
-            break
+    for ci in range(opts["calls"]):
+        per_rank = calls[ci]
+        ccase = dict(case, call=ci)
+        # -- direct oracle: union over all ranks == sequential read (for every for_all call)
+        union = collections.Counter()
+        for c in per_rank:
+            union.update(c)
+        if union != seq:
+            missing = list((seq - union).items())
+            extra = list((union - seq).items())
+            res.oracle_failures.append({"what": f"{PARSER[kind]}::for_all (call {ci + 1} of {opts['calls']}) over {n} ranks, buffer "
+                                                f"{opts['buf'] if opts['buf'] is not None else 'default'} KB, routing {opts['routing']}: "
+                                                f"{sum(v for _, v in missing)} record(s) never delivered, "
+                                                f"{sum(v for _, v in extra)} delivered too often / not in the files",
+                                        "signature": sig_of(kind, missing, extra),
+                                        "case": dict(ccase, missing=missing[:6], extra=extra[:6],
+                                                     items_per_rank=[sum(c.values()) for c in per_rank])})
+        # -- correspondence, rank by rank
+        for r in range(n):
+            if per_rank[r] != exp[r]:
+                res.corr_failures.append({"relation": "Lines.delivered (carve + readRange) == items delivered per rank",
+                                          "what": f"rank {r} of {n} differs (call {ci + 1})",
+                                          "case": dict(ccase, rank=r, only_real=list((per_rank[r] - exp[r]).items())[:5],
+                                                       only_model=list((exp[r] - per_rank[r]).items())[:5])})
+                break
+        res.count("for_all calls compared")
+        res.count("lines-delivered", sum(union.values()))
     res.traces_validated += 1
     with_data = classify(res, fset, cv)
     if with_data >= 2:
         res.distinct.add((fset["idx"], kind, n))
+    elif len(fset["sizes"]) >= 32:
+        res.distinct.add((fset["idx"], kind, n))     # many files on one rank: not split, but not the trivial one-range case
     res.count(f"kind={kind}")
+    res.count(f"shape={fset['shape']}")
     res.count(f"ranks-with-a-range={with_data}")
-    res.count("lines-delivered", sum(union.values()))
+    res.count(f"buffer_kb={opts['buf'] if opts['buf'] is not None else 'default'}")
+    res.count(f"routing={opts['routing']}")
+    res.count(f"policy={opts['policy']}")
+    if opts["calls"] > 1:
+        res.count("runs with two back-to-back for_all calls on one parser")
     if any(not nl and lens for nl, lens in fset["files"]):
         res.count("runs with a file lacking the final newline")
     if len(res.samples) < 3 and with_data >= 2:
-        res.sample({"kind": kind, "shape": fset["shape"], "ranks": n, "file_sizes": fset["sizes"], "ranges_per_rank": cv,
-                    "items_per_rank": [sum(c.values()) for c in per_rank]})
+        res.sample({"kind": kind, "shape": fset["shape"], "ranks": n, "opts": opts, "file_sizes": fset["sizes"], "ranges_per_rank": cv,
+                    "items_per_rank": [sum(c.values()) for c in calls[0]]})
 
 
 # ------------------------------------------------------------------ plan
 
 def plan(tier, seed):
-    """list of (kind, set index, [communicator sizes])"""
+    """list of (kind, set index, requested shape or None, [communicator sizes])"""
+    r18, r38 = list(range(1, 9)), list(range(3, 9))
     if tier == "quick":
-        return [("lines", i, list(range(1, 9))) for i in range(5)] + [("lines", 5, [4, 5, 6, 7, 8]),
-                                                                       ("csv", 0, [1, 2, 3, 5]), ("ndjson", 0, [2, 3, 4])]
-    p = [("lines", i, list(range(1, 9))) for i in range(30)]
-    p += [("csv", i, [1, 2, 3, 4, 6, 8]) for i in range(3)] + [("ndjson", i, [1, 2, 3, 5, 7]) for i in range(3)]
+        return ([("lines", i, None, r18) for i in range(5)] + [("lines", 5, "big", [4, 5, 6, 7, 8])]
+                + [("lines", 6, "F1", r38), ("lines", 7, "F2", r38), ("lines", 8, "F3", r38)]
+                + [("lines", 9, "S", r18), ("lines", 10, "M", [1, 2, 3, 4, 6, 8])]
+                + [("csv", 0, None, [1, 2, 3, 5]), ("ndjson", 0, None, [2, 3, 4]), ("csv", 1, "S", [2, 4])])
+    p = [("lines", i, None, r18) for i in range(30)]
+    p += [("lines", 30 + i, f"F{1 + i % 3}", r38) for i in range(9)]
+    p += [("lines", 40 + i, "S", r18) for i in range(3)] + [("lines", 44 + i, "M", r18) for i in range(3)]
+    p += [("csv", i, None, [1, 2, 3, 4, 6, 8]) for i in range(3)] + [("ndjson", i, None, [1, 2, 3, 5, 7]) for i in range(3)]
+    p += [("csv", 3, "S", [2, 3, 4]), ("ndjson", 3, "M", [3, 4])]
     return p
 
 
 PATHMODES = ["files", "dir", "dup"]
 PARSER = {"lines": "line_parser", "csv": "csv_parser", "ndjson": "ndjson_parser"}
+BUFS = [None, 0, 1]
+ROUTINGS = ["NONE", "NR", "NLNR"]
+POLICIES = ["uniform", "racer", "starve", "late", "burst"]
+
+
+def options(fset, n, seed):
+    """environment of one run: send-buffer size, routing scheme, simmpi delivery policy, number of for_all calls.
+    Deterministic in (set, ranks, seed); every value of every dimension occurs for every set."""
+    i = fset["idx"]
+    small = sum(fset["sizes"]) < 30 * 1024 * 1024
+    return {"buf": BUFS[(i + n + seed) % 3], "routing": ROUTINGS[(2 * i + n + seed // 3) % 3],
+            "policy": POLICIES[(i + 2 * n + seed) % 5], "calls": 2 if small and (i + n) % 2 == 0 or len(fset["sizes"]) >= 32 else 1}
 
 
 def run(tier, seed, model_ok=True):
@@ -416,7 +507,10 @@ def run(tier, seed, model_ok=True):
     res.assumptions = ["the granule is exercised at the code's fixed 8 MiB only (the theorems cover every granule)",
                        "libstdc++ ifstream seekg/getline/tellg behave as modelled (compared on the generated inputs)",
                        "parse_csv_line / boost::json::parse are parameters: the real functions are applied on both sides",
-                       "files are not modified while being parsed; node_local_filesystem=false (the other branch asserts)"]
+                       "files are not modified while being parsed; node_local_filesystem=false (the other branch asserts)",
+                       "the model describes one for_all call; that the per-rank assignment list is empty at the start of every call and "
+                       "complete after the second barrier (C01/C02) is exercised (buffer sizes 0/1 KB/default, three routings, five "
+                       "delivery policies, repeated calls), not proved here"]
     binary, err = C.build_harness("lines")
     if binary is None:
         res.corr_failures.append({"relation": "harness builds against /repo", "what": err[-800:], "case": None})
@@ -424,7 +518,7 @@ def run(tier, seed, model_ok=True):
     if not model_ok:
         res.corr_failures.append({"relation": "model driver available", "what": "Lean library does not build", "case": None})
         return res
-    sets = [(gen_set(tier, seed, idx, kind), ranks) for (kind, idx, ranks) in plan(tier, seed)]
+    sets = [(gen_set(tier, seed, idx, kind, shape), ranks) for (kind, idx, shape, ranks) in plan(tier, seed)]
     models = C.pmap(lambda sr: model_session(sr[0], sr[1]), sets, workers=6)
     jobs = []
     for (fset, ranks), (msizes, wf, per_n, alll) in zip(sets, models):
@@ -432,20 +526,20 @@ def run(tier, seed, model_ok=True):
             res.corr_failures.append({"relation": "generated files are canonical (File.WF)", "what": "generator produced a non-canonical file", "case": {"set": fset["idx"]}})
             continue
         for n in ranks:
-            jobs.append((fset, n, PATHMODES[(fset["idx"] + n) % 3], msizes, per_n[n], alll))
+            jobs.append((fset, n, PATHMODES[(fset["idx"] + n) % 3], options(fset, n, seed), msizes, per_n[n], alll))
 
     def do(job):
-        fset, n, pm, msizes, (cv, dl), alll = job
-        return job, run_real(binary, fset, n, pm, seed * 1000 + n)
+        fset, n, pm, opts, msizes, (cv, dl), alll = job
+        return job, run_real(binary, fset, n, pm, opts, seed * 1000 + n)
 
     workers = 8 if tier == "quick" else 5       # bounds the disk used at any time (each run writes its own copy of the set)
-    for (fset, n, pm, msizes, (cv, dl), alll), sr in C.pmap(do, jobs, workers=workers):
-        check_run(res, fset, n, pm, sr, msizes, cv, dl, alll, tier, seed)
+    for (fset, n, pm, opts, msizes, (cv, dl), alll), sr in C.pmap(do, jobs, workers=workers):
+        check_run(res, fset, n, pm, opts, sr, msizes, cv, dl, alll, tier, seed)
     return res
 
 
 def replay(data):
-    """regenerate the recorded (tier, seed, set, kind, ranks) and run it; True when the failure does NOT reproduce"""
+    """regenerate the recorded (tier, seed, set, kind, shape, ranks, options) and run it; True when the failure does NOT reproduce"""
     case = data.get("case")
     if not case:
         for b in data.get("no_longer_checks", []):
@@ -459,14 +553,14 @@ def replay(data):
     if binary is None:
         print(err[-500:])
         return False
-    fset = gen_set(case["tier"], case["seed"], case["set"], case["kind"])
-    n = case["ranks"]
+    fset = gen_set(case["tier"], case["seed"], case["set"], case["kind"], case.get("shape_req"))
+    n, opts = case["ranks"], case["opts"]
     msizes, wf, per_n, alll = model_session(fset, [n])
-    sr = run_real(binary, fset, n, case["pathmode"], case["seed"] * 1000 + n)
+    sr = run_real(binary, fset, n, case["pathmode"], opts, case["seed"] * 1000 + n)
     res = C.Result()
-    check_run(res, fset, n, case["pathmode"], sr, msizes, per_n[n][0], per_n[n][1], alll, case["tier"], case["seed"])
-    print("verdict", sr.verdict, "file sizes", fset["sizes"], "ranks", n)
-    print("model ranges per rank:", per_n[n][0])
+    check_run(res, fset, n, case["pathmode"], opts, sr, msizes, per_n[n][0], per_n[n][1], alll, case["tier"], case["seed"])
+    print("verdict", sr.verdict, "file sizes", fset["sizes"][:8], "ranks", n, "options", opts)
+    print("model ranges per rank:", [rs[:4] for rs in per_n[n][0]])
     for f in res.oracle_failures:
         print("ORACLE", f["what"], f["case"].get("missing"), f["case"].get("extra"))
     for f in res.corr_failures:
